@@ -6,6 +6,7 @@ mod instr;
 mod lowlevel;
 mod problems;
 mod props;
+mod pycase;
 mod run;
 mod stiff;
 mod trees;
@@ -64,6 +65,9 @@ fn main() {
         std::process::exit(2);
     }
     let id = args[1].clone();
+    if id == "pycase" {
+        std::process::exit(pycase::serve());
+    }
     let mut tier = match std::env::var("VERIF_TIER").ok().as_deref() {
         Some("thorough") => Tier::Thorough,
         _ => Tier::Quick,
